@@ -1894,9 +1894,15 @@ class Filter(Blockwise):
                     # sum is in the predicate of parent, then removing self would
                     # alter the condition of parent because the sum changes, this is
                     # only relevant in broadcasting cases
-                    return self.frame[
-                        self.predicate & parent.predicate.substitute(self, self.frame)
-                    ]
+                    predicate = parent.predicate.substitute(self, self.frame)
+                    # Column or index projections may already have been pushed
+                    # below this filter; those filtered operands (same row
+                    # filter) have to be rewritten as well, otherwise the
+                    # squashed predicate mixes filtered and unfiltered operands
+                    for e in list(predicate.find_operations(Filter)):
+                        if e.predicate._name == self.predicate._name:
+                            predicate = predicate.substitute(e, e.frame)
+                    return self.frame[self.predicate & predicate]
         if isinstance(parent, Projection):
             if self.frame._filter_passthrough_available(self, dependents):
                 # We can't push Projections through filters if the preceding operation
